@@ -130,7 +130,7 @@ class WindowFunction(ASTNode):
                f'{alias_str}' \
                f'\n{ind})'
 
-    def to_string(self, *args, **kwargs):
+    def get_string(self, *args, **kwargs):
         fnc_str = self.function.get_string()
         partition_str = ''
         if self.partition is not None:
@@ -140,12 +140,8 @@ class WindowFunction(ASTNode):
         if self.order_by is not None:
             order_str = 'ORDER BY ' + ', '.join([arg.to_string() for arg in self.order_by])
 
-        if self.alias is not None:
-            alias_str = self.alias.to_string()
-        else:
-            alias_str = ''
         modifier_str = ' ' + self.modifier if self.modifier else ''
-        return f'{fnc_str} over({partition_str} {order_str}{modifier_str}) {alias_str}'
+        return f'{fnc_str} over({partition_str} {order_str}{modifier_str})'
 
 
 class Object(ASTNode):
